@@ -723,10 +723,32 @@ def check_sniffers(which=None, extra_files=None):
 # ---- data_types: unit view vs document view on hand-built content objects (bounded: <= 3 elements x <= 2 images) ----
 def check_views(cls=None):
     dt = _imp("sharepoint2text.parsing.extractors.data_types")
-    mk_img = {"PdfContent": lambda k: dt.PdfImage(index=k, data=bytes([k])), "PptxContent": lambda k: dt.PptxImage(image_index=k, blob=bytes([k])),
-              "XlsxContent": lambda k: dt.XlsxImage(image_index=k, data=io.BytesIO(bytes([k]))),
-              "OdpContent": lambda k: dt.OpenDocumentImage(image_index=k, data=io.BytesIO(bytes([k]))),
-              "OdsContent": lambda k: dt.OpenDocumentImage(image_index=k, data=io.BytesIO(bytes([k])))}
+    import dataclasses
+    icls = {"PdfContent": dt.PdfImage, "PptxContent": dt.PptxImage, "XlsxContent": dt.XlsxImage, "OdpContent": dt.OpenDocumentImage,
+            "OdsContent": dt.OpenDocumentImage}
+
+    def mk_image(c, k):
+        """Image objects of every shape an extractor can produce: with payload, all-default (no payload: external link),
+        error placeholder, zero / missing size -- a view that filters on any field is exposed."""
+        cl = icls[c]
+        names = {f.name: f for f in dataclasses.fields(cl)}
+        num = "index" if "index" in names else "image_index"
+        variant = k % 4
+        kw = {num: k}
+        pay = "blob" if "blob" in names else "data"
+        raw = bytes([k])
+        if variant in (0, 3):
+            kw[pay] = raw if (cl is dt.PdfImage or pay == "blob") else io.BytesIO(raw)
+            if "content_type" in names:
+                kw["content_type"] = "image/png"
+        if variant == 2 and "error" in names:
+            kw["error"] = "read failed"
+        if variant == 3:
+            for dim in ("width", "height"):
+                if dim in names:
+                    kw[dim] = 0 if cl in (dt.PdfImage, dt.XlsxImage) else None
+        return cl(**kw)
+    mk_img = {c: (lambda k, c=c: mk_image(c, k)) for c in icls}
     mk_el = {"PdfContent": lambda imgs, tabs, k: dt.PdfPage(text=f"p{k}", images=imgs, tables=tabs),
              "PptxContent": lambda imgs, tabs, k: dt.PptxSlide(slide_number=k, images=imgs, tables=tabs),
              "XlsxContent": lambda imgs, tabs, k: dt.XlsxSheet(name=f"S{k}", images=imgs, data=(tabs[0] if tabs else [])),
@@ -734,7 +756,7 @@ def check_views(cls=None):
              "OdsContent": lambda imgs, tabs, k: dt.OdsSheet(name=f"S{k}", images=imgs, data=(tabs[0] if tabs else []))}
     field = {"PdfContent": "pages", "PptxContent": "slides", "XlsxContent": "sheets", "OdpContent": "slides", "OdsContent": "sheets"}
     for c in ([cls] if cls else list(field)):
-        for shape in itertools.product([0, 1, 2], repeat=3):
+        for shape in itertools.product([0, 1, 2, 3], repeat=3):
             for n in range(0, 4):
                 k = 0
                 els = []
